@@ -1156,7 +1156,7 @@ class C37(Spec):
     needs_numpy = True
     title = 'secure NumPy arrays agree with plain NumPy and with secure scalars'
     technique = 'deterministic simulation (numpy mode) + plain NumPy reference on exact Python ints / Fractions'
-    quick = {'runs': 1200, 'wall': 85}
+    quick = {'runs': 6000, 'wall': 85}
     thorough = {'runs': 200000, 'wall': 900}
     per_run_timeout = 300
     assumptions = ['numpy 2.5.3 from the offline wheelhouse installed into /verif/.deps (not part of the baseline venv)']
@@ -1185,6 +1185,20 @@ def _kf_c37(self, tier):
          'prog': {'family': 'np', 'type': {'kind': 'int', 'l': 16},
                   'stmts': [['const', 'a1', [], {'shape': [3], 'values': [1, 2, 3]}], ['sum', 'a2', ['a1'], {'axis': None}],
                             ['eq', 'a3', ['a2', 'a1'], {}]], 'outputs': ['a3'], 'tags': ['scalar_left_cmp']}},
+        # regression cases of fixed findings (no known-finding tag: must pass)
+        {'family': 'np', 'cfg': _cfgj(2, 0),
+         'prog': {'family': 'np', 'type': {'kind': 'int', 'l': 32},
+                  'stmts': [['input', 'a1', [], {'sender': 1, 'shape': [2, 2, 2], 'values': [0, 0, 0, 1, 0, -2, 0, -1],
+                                                 'dummy': [4, -1, -1, 0, -2, 1, 2, 0]}],
+                            ['argmin', 'a5', ['a1'], {'axis': 0}], ['argmax', 'a6', ['a1'], {'axis': 0, 'pick': 'u', 'keepdims': True}],
+                            ['argmax', 'a7', ['a1'], {'axis': 0, 'pick': 'm', 'keepdims': True}]],
+                  'outputs': ['a5', 'a6', 'a7'], 'tags': []}},
+        {'family': 'np', 'cfg': _cfgj(3, 1),
+         'prog': {'family': 'np', 'type': {'kind': 'int', 'l': 16},
+                  'stmts': [['input', 'a1', [], {'sender': 0, 'shape': [2, 3], 'values': [1, 0, 1, 1, 0, 0], 'dummy': [1, -1, -1, 0, 0, -2]}],
+                            ['getitem', 'a2', ['a1'], {'key': [[0, 0]]}], ['prod', 'a3', ['a2'], {'axis': 0}],
+                            ['any', 'a4', ['a2'], {'axis': None}]],
+                  'outputs': ['a3', 'a4'], 'tags': []}},
     ]
 
 
@@ -1198,7 +1212,7 @@ class C38(Spec):
     needs_numpy = True
     title = 'secure polynomial arithmetic agrees with plain polynomial arithmetic'
     technique = 'deterministic simulation (numpy mode) + gfpx polynomials as reference'
-    quick = {'runs': 600, 'wall': 85}
+    quick = {'runs': 3000, 'wall': 85}
     thorough = {'runs': 100000, 'wall': 900}
     per_run_timeout = 300
     assumptions = ['numpy 2.5.3 from the offline wheelhouse installed into /verif/.deps', 'gfpx plain polynomial arithmetic is the reference (C23 is not claimed here)',
@@ -1225,7 +1239,17 @@ def _kf_c38(self, tier):
             {'family': 'poly', 'cfg': _cfgj(1, 0),
              'prog': {'family': 'poly', 'p': 31, 'stmts': [['const', 'f1', [], {'coeffs': [14, 2, 23, 0]}], ['const', 'f2', [], {'coeffs': [14, 18, 6]}],
                                                            ['gcdext', ['f5', 'f6', 'f7'], ['f1', 'f2'], {}]],
-                      'outputs': ['f5', 'f6', 'f7'], 'tags': ['gcdext']}}]
+                      'outputs': ['f5', 'f6', 'f7'], 'tags': ['gcdext']}},
+            # regression cases of fixed findings (no known-finding tag: must pass)
+            {'family': 'poly', 'cfg': _cfgj(2, 0),
+             'prog': {'family': 'poly', 'p': 101, 'stmts': [['input', 'f1', [], {'coeffs': [5, 1, 88, 0], 'sender': 0, 'dummy': [17, 23, 49, 77]}],
+                                                            ['reverse', 'f3', ['f1'], {'d': -1}], ['lt', 'f5', ['f3', 'f3'], {}],
+                                                            ['ne', 'f6', ['f3', 'f3'], {}]],
+                      'outputs': ['f5', 'f6'], 'tags': []}},
+            {'family': 'poly', 'cfg': _cfgj(1, 0),
+             'prog': {'family': 'poly', 'p': 65537, 'stmts': [['const', 'f1', [], {'coeffs': [35020, 45348, 84]}], ['mul', 'f3', ['f1', 'f1'], {}],
+                                                              ['lshift', 'f5', ['f3'], {'n': 3}], ['call', 'f9', ['f5'], {'x': 19988}]],
+                      'outputs': ['f9'], 'tags': []}}]
 
 
 C38.kf_cases = _kf_c38
